@@ -88,6 +88,11 @@ def transitions(state, U, vals, tier):
         for L1 in perm:
             for L2 in targets:
                 out.append(["adjust", L1, L2])
+                # the two list headers may be views of ONE attribute array (caller code: `to = from; to.length = n;`): same arguments, other memory layout
+                e1, e2 = L1["e"], L2["e"]
+                lo, sh = (e1, e2) if len(e1) >= len(e2) else (e2, e1)
+                if lo[:len(sh)] == sh and (e1 != e2 or L1["omit"] != L2["omit"]):
+                    out.append(["adjust", L1, L2, "shared"])
     return out
 
 
